@@ -59,25 +59,30 @@ pub const IDCERT: u8 = 11;
 pub const SIGMSG: u8 = 12;
 pub const PROV_CMS: u8 = 13;
 pub const PUB_CMS: u8 = 14;
-pub const N_ENTRIES: u8 = 15;
+/// The manifest content decoded on its own through the public
+/// `ManifestContent::take_from` (the switch selects DER or BER mode; the
+/// ROA and ASPA content decoders are private).
+pub const MFT_CONTENT: u8 = 15;
+pub const N_ENTRIES: u8 = 16;
 
 /// (name, has a strict/relaxed switch)
 pub const ENTRIES: [(&str, bool); N_ENTRIES as usize] = [
-    ("cert", false),
-    ("crl", false),
+    ("cert", true),
+    ("crl", true),
     ("manifest", true),
     ("roa", true),
     ("aspa", true),
     ("rta", true),
     ("sigobj", true),
     ("tal", false),
-    ("pubkey", false),
+    ("pubkey", true),
     ("ca-csr", false),
     ("bgpsec-csr", false),
-    ("idcert", false),
+    ("idcert", true),
     ("sigmsg", true),
     ("prov-cms", false),
     ("pub-cms", false),
+    ("manifest-content", true),
 ];
 
 /// Selector octet used by the fuzz target and the corpus files:
@@ -267,7 +272,9 @@ pub fn decode_and_walk(entry: u8, strict: bool, data: &[u8]) -> Outcome {
     let mut w = Walk::new();
     let mut out = Outcome::default();
     match entry % N_ENTRIES {
-        CERT => match Cert::decode(data) {
+        // no strict flag of their own: the switch selects X::decode (DER) or the public
+        // X::take_from under a BER-mode decoder
+        CERT => match if strict { Cert::decode(data) } else { Mode::Ber.decode(data, Cert::take_from) } {
             Ok(c) => {
                 out.ok = true;
                 walk_cert(&mut w, fx, &c, true);
@@ -278,7 +285,7 @@ pub fn decode_and_walk(entry: u8, strict: bool, data: &[u8]) -> Outcome {
                 out.stage1 = SignedData::<RpkiSignatureAlgorithm>::decode(data).is_ok();
             }
         },
-        CRL => match Crl::decode(data) {
+        CRL => match if strict { Crl::decode(data) } else { Mode::Ber.decode(data, Crl::take_from) } {
             Ok(c) => {
                 out.ok = true;
                 walk_crl(&mut w, fx, c);
@@ -349,7 +356,7 @@ pub fn decode_and_walk(entry: u8, strict: bool, data: &[u8]) -> Outcome {
                 Err(e) => w.show(e),
             }
         }
-        PUBKEY => match PublicKey::decode(data) {
+        PUBKEY => match if strict { PublicKey::decode(data) } else { Mode::Ber.decode(data, PublicKey::take_from) } {
             Ok(k) => {
                 out.ok = true;
                 walk_pubkey(&mut w, &k);
@@ -377,7 +384,7 @@ pub fn decode_and_walk(entry: u8, strict: bool, data: &[u8]) -> Outcome {
                 out.stage1 = SignedData::<BgpsecSignatureAlgorithm>::decode(data).is_ok();
             }
         },
-        IDCERT => match IdCert::decode(data) {
+        IDCERT => match if strict { IdCert::decode(data) } else { Mode::Ber.decode(data, IdCert::take_from) } {
             Ok(c) => {
                 out.ok = true;
                 walk_idcert(&mut w, fx, &c);
@@ -405,7 +412,7 @@ pub fn decode_and_walk(entry: u8, strict: bool, data: &[u8]) -> Outcome {
                 out.stage1 = SignedMessage::decode(data, false).is_ok();
             }
         },
-        _ => match PublicationCms::decode(data) {
+        PUB_CMS => match PublicationCms::decode(data) {
             Ok(c) => {
                 out.ok = true;
                 walk_publ(&mut w, fx, c);
@@ -416,6 +423,19 @@ pub fn decode_and_walk(entry: u8, strict: bool, data: &[u8]) -> Outcome {
                 out.stage1 = SignedMessage::decode(data, false).is_ok();
             }
         },
+        _ => {
+            let mode = if strict { Mode::Der } else { Mode::Ber };
+            match mode.decode(data, rpki::repository::manifest::ManifestContent::take_from) {
+                Ok(c) => {
+                    out.ok = true;
+                    walk_mft_content(&mut w, fx, &c, None);
+                    let der = c.encode_ref().to_captured(Mode::Der);
+                    recode(&mut w, der.as_slice(), |b| Mode::Der.decode(b, rpki::repository::manifest::ManifestContent::take_from).is_ok());
+                    w.bytes(c.encode_ref().to_captured(Mode::Ber).as_slice());
+                }
+                Err(e) => out.err_pos = err_pos(&e),
+            }
+        }
     }
     out.steps = w.steps;
     out.validated = w.validated;
@@ -928,8 +948,12 @@ fn walk_sigobj(w: &mut Walk, fx: &Fixed, s: SignedObject, strict: bool) {
 
 fn walk_manifest(w: &mut Walk, fx: &Fixed, m: Manifest, strict: bool) {
     walk_cert(w, fx, m.cert(), false);
+    walk_mft_content(w, fx, m.content(), m.cert().signed_object());
+    walk_manifest_rest(w, fx, m, strict);
+}
+
+fn walk_mft_content(w: &mut Walk, fx: &Fixed, c: &rpki::repository::manifest::ManifestContent, own_base: Option<&uri::Rsync>) {
     {
-        let c = m.content();
         walk_serial(w, c.manifest_number());
         walk_time(w, fx, c.this_update());
         walk_time(w, fx, c.next_update());
@@ -957,12 +981,19 @@ fn walk_manifest(w: &mut Walk, fx: &Fixed, m: Manifest, strict: bool) {
                 w.dbg(h.algorithm());
             }
         }
-        if let Some(base) = m.cert().signed_object() {
+        if let Some(base) = own_base {
             w.see(c.iter_uris(base).take(ITER_CAP).count());
         }
+        w.see(c.iter().count());
+        w.see(c.iter().size_hint());
+        w.see(c.iter().last().map(|f| f.file().len()));
+        w.see(c.iter().nth(1).map(|f| f.hash().len()));
         w.bytes(c.encode_ref().to_captured(Mode::Der).as_slice());
         w.dbg(c.manifest_number());
     }
+}
+
+fn walk_manifest_rest(w: &mut Walk, fx: &Fixed, m: Manifest, strict: bool) {
     let t = m.cert().validity().not_before();
     let issuers: [Option<&ResourceCert>; 2] = [Some(&fx.ta), fx.ca.as_ref()];
     for issuer in issuers.into_iter().flatten() {
@@ -981,8 +1012,12 @@ fn walk_manifest(w: &mut Walk, fx: &Fixed, m: Manifest, strict: bool) {
 
 fn walk_roa(w: &mut Walk, fx: &Fixed, r: Roa, strict: bool) {
     walk_cert(w, fx, r.cert(), false);
+    walk_roa_content(w, fx, r.content());
+    walk_roa_rest(w, fx, r, strict);
+}
+
+fn walk_roa_content(w: &mut Walk, fx: &Fixed, c: &rpki::repository::roa::RouteOriginAttestation) {
     {
-        let c = r.content();
         w.show(c.as_id());
         w.see(c.v4_addrs().is_empty());
         w.see(c.v6_addrs().is_empty());
@@ -1009,8 +1044,15 @@ fn walk_roa(w: &mut Walk, fx: &Fixed, r: Roa, strict: bool) {
             w.see(o.asn);
             w.dbg(o);
         }
+        w.see(c.v4_addrs().iter().count());
+        w.see(c.v6_addrs().iter().size_hint());
+        w.see(c.v4_addrs().iter().last().map(|a| a.max_length()));
+        w.see(c.v6_addrs().iter().nth(1).map(|a| a.max_length()));
         w.bytes(c.encode_ref().to_captured(Mode::Der).as_slice());
     }
+}
+
+fn walk_roa_rest(w: &mut Walk, fx: &Fixed, r: Roa, strict: bool) {
     let issuers: [Option<&ResourceCert>; 2] = [Some(&fx.ta), fx.ca.as_ref()];
     for issuer in issuers.into_iter().flatten() {
         match r.clone().process(issuer, strict, |_| Ok(())) {
@@ -1028,8 +1070,12 @@ fn walk_roa(w: &mut Walk, fx: &Fixed, r: Roa, strict: bool) {
 
 fn walk_aspa(w: &mut Walk, fx: &Fixed, a: Aspa, strict: bool) {
     walk_cert(w, fx, a.cert(), false);
+    walk_aspa_content(w, fx, a.content());
+    walk_aspa_rest(w, fx, a, strict);
+}
+
+fn walk_aspa_content(w: &mut Walk, fx: &Fixed, c: &rpki::repository::aspa::AsProviderAttestation) {
     {
-        let c = a.content();
         w.show(c.customer_as());
         let set = c.provider_as_set();
         w.see(set.len());
@@ -1045,8 +1091,15 @@ fn walk_aspa(w: &mut Walk, fx: &Fixed, a: Aspa, strict: bool) {
         w.see(s.contains(c.customer_as()));
         w.dbg(set.len());
         walk_as_res(w, fx, &c.as_resources());
+        w.see(set.iter().count());
+        w.see(set.iter().size_hint());
+        w.see(set.iter().last());
+        w.see(set.iter().nth(1));
         w.bytes(c.encode_ref().to_captured(Mode::Der).as_slice());
     }
+}
+
+fn walk_aspa_rest(w: &mut Walk, fx: &Fixed, a: Aspa, strict: bool) {
     let issuers: [Option<&ResourceCert>; 2] = [Some(&fx.ta), fx.ca.as_ref()];
     for issuer in issuers.into_iter().flatten() {
         match a.clone().process(issuer, strict, |_| Ok(())) {
